@@ -31,6 +31,7 @@ RULE = (
     "fields visible to their caller; in 30% of the cases a directive on the schema wraps every execution and refuses every third "
     "caller by raising. Distinct = SHA-1 of (requests, schedule); non-trivial = gates of >= 2 requests were "
     "released alternately (A, B, A)."
+    " Delivered argument dictionaries are modified in place after every request."
 )
 ASSUMPTIONS = c08.ASSUMPTIONS
 DOC_OPTS = {"max_nodes": 6, "max_frags": 3, "max_sels": 3, "max_depth": 3, "w_spread": 25}
@@ -260,6 +261,7 @@ def solo(h, schema, reqs, texts):
         rs = new_state(schema, req, i)
         h.gate = None
         resp = run_async(execute(h, req, rs, texts[i]))
+        h.scramble_live()  # what resolvers were handed is modified in place once the request is over
         out.append((canon_response(resp), summarize(rs)))
         denied = bool(reqs and spec_plan.get("schema_hook_denies")) and i % 3 == 2
         if "expected" in req and not req.get("faults") and not req.get("invalid") and not denied:
@@ -303,6 +305,7 @@ def check(spec, h, budget, scripts, stats=None):
         return all_()
 
     def on_result(s, resps, left, script):
+        h.scramble_live()
         sspec = dict(spec, schedule=list(script))
         for i, resp in enumerate(resps):
             got = canon_response(resp)
@@ -357,6 +360,7 @@ def case(c, stats):
     plan = c08.plan_for(base_plan, cfg)
     plan["gate_hooks"] = False
     plan["introspection_by_rid"] = True
+    plan["scramble_args"] = True
     if c.maybe(30):
         # a directive on the schema wraps every execution and refuses every third caller by raising
         add_schema_directive(schema)
